@@ -12,6 +12,12 @@ def queries(tier):
         qs.append(Q(f'fi_a{na}_b{nb}_ov{ov}_m{mg}_s{ns}', 'fi', 'c12_fi.c', defs=dict({'NA': na, 'NB': nb, 'OV': ov, 'MERGE': mg, 'NSYM': ns}, **({'SYMPOS': 0} if mg else {})), unwind=12,
                     unwindset={'^(harness|weight|verif_mem.*|verif_new.*)$': 40, 'introselect|heap_select|insertion_sort|adjust_heap|unguarded': 9}, timeout=(500 if tier == 'quick' else 3000), native_vectors=200,
                     c_defs=dict({'VERIF_NEW_CAPN': 16, 'VERIF_VEC_CAP': 10}, **({'VERIF_CUT_FI_PURGE': None} if na + nb - ov <= 6 else {})), mem_gb=(20 if tier == 'quick' else 28)))
+    # merges that PURGE during the replay of the other sketch: the stream is concrete (symex constant-folds the whole history), only the
+    # queried item is symbolic: the bracket must hold for every item of the domain
+    for (na, nb, ov) in []:   # attempted: (5,3,0), (6,2,1), (6,3,0): symex of the purge's nth_element does not fold even on this concrete data; no verdict in 400 s
+        qs.append(Q(f'fi_mergepurge_a{na}_b{nb}_ov{ov}_symquery', 'fi', 'c12_fi.c', defs={'NA': na, 'NB': nb, 'OV': ov, 'MERGE': 1, 'NSYM': 0, 'SYMQUERY': None}, unwind=14,
+                    unwindset={'^(harness|weight|verif_mem.*|verif_new.*)$': 40}, timeout=(400 if tier == 'quick' else 1500), native_vectors=200,
+                    c_defs={'VERIF_NEW_CAPN': 16, 'VERIF_VEC_CAP': 10}, mem_gb=16))
     for (na, ns) in []:   # result-set queries (sort of a symbolic-length vector of rows): no verdict in 400 s
         qs.append(Q(f'fi_resultsets_a{na}_s{ns}', 'fi', 'c12_fi.c', defs={'NA': na, 'NB': 0, 'OV': 0, 'MERGE': 0, 'NSYM': ns, 'RESULTSETS': None}, unwind=12,
                     unwindset={'^(harness|weight|verif_mem.*|verif_new.*)$': 40, 'introselect|heap_select|insertion_sort|adjust_heap|unguarded': 9}, timeout=(400 if tier == 'quick' else 1800), native_vectors=200,
